@@ -403,7 +403,7 @@ example : ∃ ls, writeGener mainTabs exGener = .ok ls ∧ ls.length = 7 := by
 example : GoodGener (fun i => fieldAt mainTabs c!"generator" i) (fieldAt mainTabs c!"generation_times" 0)
     (fieldAt mainTabs c!"generation_rates" 0) (fieldAt mainTabs c!"generation_enthalpy" 0) exGener :=
   { block := ⟨rfl, by decide +kernel, by decide +kernel⟩, nameLen := rfl, nameNl := by decide +kernel,
-    ltabInt := ⟨5, rfl⟩, ltabKeep := by decide +kernel, typeKeep := by decide +kernel, itabStr := ⟨_, rfl⟩,
+    ltabInt := Or.inr ⟨5, rfl⟩, ltabKeep := by decide +kernel, typeKeep := by decide +kernel, itabStr := ⟨_, rfl⟩,
     itabKeep := by decide +kernel, timeLen := by decide +kernel, rateLen := by decide +kernel,
     enthLen := by decide +kernel,
     enthItab := by intro _ s h; cases h; decide +kernel,
